@@ -193,6 +193,8 @@ class ProtocolDriver:
             # a script that does not report at every resource level (the
             # scheduler documents that it warns and carries on)
             jump = self.t.weighted([(5, 1), (1, 2), (1, 3)])
+        # (drawn before the result: twin drivers replay the tape up to here identically, whatever their result functions draw)
+        end_now = bool(self.early_complete and self.t.chance(1, 8))
         st["level"] += jump
         level = st["level"]
         trial = self.trials[tid]
@@ -214,7 +216,7 @@ class ProtocolDriver:
         elif dec == "CONTINUE":
             cap = self.level_cap_fn(trial.config)
             # a training script may also end on its own before the maximum resource (early convergence)
-            if level >= cap or (self.early_complete and self.t.chance(1, 8)):
+            if level >= cap or end_now:
                 self.sched.on_trial_complete(trial, dict(result))
                 del self.running[tid]
                 self.completed.add(tid)
